@@ -43,7 +43,7 @@ func runC17(o Opts) error {
 		for _, d := range cfg0.Devices {
 			devs = append(devs, uhppote.Device{Name: d.Name, DeviceID: d.ID, Address: types.ControllerAddr{AddrPort: d.Addr}, Doors: []string{"front", "back", "side", "garage"}, TimeZone: time.UTC, Protocol: d.Proto})
 		}
-		f := &fakeDriver{}
+		f := &fakeDriver{scribble: true}
 		bind := types.BindAddrFrom(netip.IPv4Unspecified(), 0)
 		u := uhppote.NewWithDriver(bind, types.BroadcastAddr{AddrPort: cfg0.Bcast}, types.ListenAddrFrom(netip.IPv4Unspecified(), 60001), 250*time.Millisecond, devs, false, func(uhppote.Driver) uhppote.Driver { return f })
 		cl := &clientState{f: f, u: u}
